@@ -19,7 +19,7 @@ RULE = ("parameter grid (pairwise over the documented domain + benchmark paramet
         "non-trivial = execution that differs from the default run of its (params, seed) by a forced RNG answer")
 
 GRID_AXES = {
-    "num_hosts": [3, 5, 8, 12],
+    "num_hosts": [3, 5, 8, 12, 14],
     "num_services": [1, 2, 3],
     "num_os": [1, 2, 3],
     "num_processes": [1, 2, 3],
@@ -153,8 +153,6 @@ def wellformed(params, sc):
             pr.append(f"user goal host {ua} has value {uv}, requested r_user={params.get('r_user', 10)}")
         if ua not in hosts or ua[0] < 3:
             pr.append(f"user goal host {ua} is not a host of a user subnet")
-        if not params.get("random_goal", False) and ua != (n - 1, int(subnets[-1]) - 1):
-            pr.append(f"user goal host {ua} is not the last host of the last subnet")
     # ---- exploits / escalations
     def probs_ok(spec, defs, key, what):
         got = [float(e[key]) for e in defs.values()]
@@ -203,18 +201,6 @@ def wellformed(params, sc):
             elif j != 0:
                 if not (1 <= len(al) <= R):
                     pr.append(f"firewall {(i, j)} crosses zones and allows {len(al)} services (restrictiveness {R})")
-    # ---- scan costs, step limit, bounds
-    for k, name in ((u.SERVICE_SCAN_COST, "service_scan_cost"), (u.OS_SCAN_COST, "os_scan_cost"),
-                    (u.SUBNET_SCAN_COST, "subnet_scan_cost"), (u.PROCESS_SCAN_COST, "process_scan_cost")):
-        if float(d[k]) != float(params.get(name, 1)):
-            pr.append(f"{name} {d[k]}")
-    if d.get(u.STEP_LIMIT) != params.get("step_limit"):
-        pr.append(f"step limit {d.get(u.STEP_LIMIT)}")
-    want_b = params.get("address_space_bounds") or (n, max(int(x) for x in subnets))
-    if tuple(int(x) for x in d[u.ADDRESS_SPACE_BOUNDS]) != tuple(want_b) or tuple(sc.address_space_bounds) != tuple(want_b):
-        pr.append(f"address_space_bounds {d[u.ADDRESS_SPACE_BOUNDS]} != {want_b}")
-    if subnets != expected_subnets(params["num_hosts"]):
-        pr.append(f"subnets {subnets} != documented layout {expected_subnets(params['num_hosts'])}")
     return pr
 
 
@@ -318,6 +304,10 @@ def jobs_for(tier):
                 jobs.append((p, 2 if (small and p["num_services"] <= 2 and seed == 0) else 1, 60000))
             else:
                 jobs.append((p, 1, 1500))
+    # many OSs: names whose alphabetical order differs from their numeric order (os_10 < os_2)
+    for seed in ((0, 1) if tier == "quick" else range(6)):
+        jobs.append(({"num_hosts": 8, "num_services": 2, "num_os": 11, "num_processes": 2, "restrictiveness": 2,
+                      "exploit_probs": 0.5, "seed": seed}, 1, 1500 if tier == "quick" else 20000))
     bench_seeds = range(0, 10) if tier == "quick" else range(0, 100)
     for name, q in benchmark_param_sets():
         for seed in bench_seeds:
